@@ -655,6 +655,17 @@ Proof.
   unfold ex_block, b_lines.
   assert (F : forall v, (Z.abs v < 10 ^ Z.of_nat (6 + 6))%Z -> fits_F 14 6 v).
   { intros v Hv. apply (fits_F_bound 14 6 v 6); auto; lia. }
-  repeat constructor; try (apply F; cbn; lia); try (cbn; lia); try reflexivity; try discriminate;
-    try (left; reflexivity); try (right; eexists; split; reflexivity).
+  repeat match goal with
+         | |- flag_ok "" => left; reflexivity
+         | |- flag_ok _ => right; eexists; split; reflexivity
+         | |- fits_F 14 6 _ => apply F; cbn; lia
+         | |- code_ok _ _ => cbn; try lia; exact I
+         | |- _ /\ _ => split
+         | |- Forall _ _ => constructor
+         | |- bline_ok _ => unfold bline_ok
+         | |- trimmed _ = true => reflexivity
+         | |- is_space _ = false => reflexivity
+         | |- (len _ <= 3)%nat => cbn; lia
+         | |- _ <> _ => discriminate
+         end.
 Qed.
